@@ -109,7 +109,7 @@ func c11IsoOpenFile(p string, exists bool) {
 		vp.Assert(n == 0, "finalized iso: File.Write reports no bytes written")
 		vp.Cover("read-only open succeeds, Write on the handle refused")
 	} else {
-		vp.Cover("read-only open of a missing file fails")
+		vp.Cover("open without write access fails (missing file, or O_EXCL alone)")
 	}
 	vp.Assert(len(dev.Log) == 0, "nothing was written to the image")
 	vp.Assert(dev.WritableCalls == 0, "no writable handle was requested")
